@@ -854,6 +854,7 @@ pub fn extract_item(sf: &SourceFile, it: &Value, cfg: &Config) -> std::result::R
             Cur::Impl(i) => t.visit_item_impl(i),
             Cur::ItemFn(f) => t.visit_item_fn(f),
             Cur::ImplFn(f) => t.visit_impl_item_fn(f),
+            Cur::Item(i) => t.visit_item(i),
             _ => {}
         }
     }
